@@ -105,7 +105,7 @@ func main() {
 		"around position 65535 vs the Coq model, every instruction of every compiled program re-encoded and decoded, bytecode of the bytecode compiler decoded and " +
 		"compared with the instruction compiler's output. Compilation: fixed + generated programs (interfaces with default functions inherited by several " +
 		"composites, enums, resources, attachments, closures, constants of several kinds, contract imports) parsed+checked+compiled repeatedly in-process and in " +
-		"fresh processes, full dumps compared. non-trivial = LEB value needing >= 2 bytes or negative; instruction with at least one operand; program with an " +
+		"fresh processes, without and with the peephole optimiser, full dumps compared. non-trivial = LEB value needing >= 2 bytes or negative; instruction with at least one operand; program with an " +
 		"inherited default function; distinct = distinct value / (opcode, operands) / program text"
 
 	h.lebStage(thorough)
@@ -452,6 +452,16 @@ func (h *harness) compileStage(thorough bool) {
 			}
 		}
 		// instructions of the compiled program: encode/decode each; bytecode compiler output decodes to the same list
+		if first.instrOpt != nil {
+			for _, f := range first.instrOpt.Functions {
+				for _, ins := range f.Code {
+					_, key := canon(ins)
+					toCoq := !seenInstr[key] && len(seenInstr) < 1500
+					seenInstr[key] = true
+					h.checkInstruction(ins, 0, toCoq, cw, "compiled")
+				}
+			}
+		}
 		for fi, f := range first.instr.Functions {
 			for _, ins := range f.Code {
 				_, key := canon(ins)
